@@ -672,6 +672,7 @@ func props() []rp.Prop {
 	return []rp.Prop{
 		rp.P[batch]{Name: "batch", Checks: ev.Pick(120, 9600) / ev.Shards(), Gen: genBatch, Check: check},
 		rp.P[discCase]{Name: "discovery", Checks: ev.Pick(40, 3000) / ev.Shards(), Gen: genDiscovery, Check: checkDiscovery},
+		rp.P[lookupCase]{Name: "discovery-next-to-lookups", Sweep: sweepLookup, Check: checkLookup},
 		rp.P[samePortCase]{Name: "bind-port-equals-listen-port", Sweep: sweepSamePort, Check: checkSamePort},
 		rp.P[crowdCase]{Name: "crowd", Sweep: sweepCrowd, Check: checkCrowd},
 		cold.Prop{Name: "crowd-in-a-process-with-a-modest-file-limit", Scenario: "crowd-files", N: ev.Pick(4, 48) / ev.Shards()},
